@@ -30,7 +30,19 @@ func NewTraceWriter(path string) *TraceWriter {
 	if err != nil {
 		panic(err)
 	}
-	return &TraceWriter{f: f, w: bufio.NewWriterSize(f, 1<<20), Path: path}
+	t := &TraceWriter{f: f, w: bufio.NewWriterSize(f, 1<<20), Path: path}
+	openWriters = append(openWriters, t)
+	return t
+}
+
+var openWriters []*TraceWriter
+
+// FlushAll writes out what every trace writer has buffered (called by drv.Main when a driver
+// dies: what the real code did up to that point is still validated).
+func FlushAll() {
+	for _, t := range openWriters {
+		t.w.Flush()
+	}
 }
 
 // DriverCfg is the -cfg string of the running driver (set by drv.Main); it is
